@@ -8,6 +8,8 @@ import (
 	"fmt"
 	"math"
 	"math/big"
+	"os"
+	"path/filepath"
 )
 
 // Vec is the nondet vector of the current replay; Params its concrete parameters.
@@ -144,3 +146,13 @@ func pow(a int64, e int64) *big.Int { return new(big.Int).Exp(bi(a), bi(e), nil)
 // SpecPow: res == a**e exactly (e >= 0, concrete in harnesses).
 func SpecPow(a, e, res int64) bool { return pow(a, e).Cmp(bi(res)) == 0 }
 func FitsPow(a, e int64) bool      { return fits(pow(a, e)) }
+
+// TempFile makes a file with the given content available under a path (natively a real
+// temporary file; in the engine a virtual file served by the os.Open intrinsic).
+func TempFile(name, content string) string {
+	p := filepath.Join(os.TempDir(), name)
+	if err := os.WriteFile(p, []byte(content), 0o644); err != nil {
+		panic(err)
+	}
+	return p
+}
